@@ -96,6 +96,60 @@ def ast_to_sexp(node):
     return None, None
 
 
+EMBED_SHAPES = """
+def e_plain(a):
+    return a + 1
+
+def e_nested_def(a):
+    def g(b):
+        return b + a
+    return g(a)
+
+def e_nested_lambda(a):
+    h = lambda b: b + a
+    return h(a)
+
+def e_two_levels(a):
+    def g(b):
+        def k(c):
+            return c + b
+        return k(b) + a
+    return g(a)
+
+def e_def_and_lambda(a):
+    h = lambda b: b * 2
+    def g(b):
+        return h(b) + a
+    return g(a)
+
+e_lambda = lambda a: a + 1
+"""
+
+
+def embedded_options(tree):
+    """[(nesting depth of the enclosing def/lambda, options expression)] for every `ag__.FunctionScope(name, scope, OPTIONS)`
+    and `ag__.with_function_scope(thunk, scope, OPTIONS)` call of the generated code, outermost first."""
+    out = []
+
+    def is_ag(n, name):
+        return isinstance(n, ast.Attribute) and n.attr == name and isinstance(n.value, ast.Name) and n.value.id == 'ag__'
+
+    def walk(n, depth):
+        if isinstance(n, ast.Call) and (is_ag(n.func, 'FunctionScope') or is_ag(n.func, 'with_function_scope')) and len(n.args) >= 3:
+            out.append((depth, n.args[2]))
+        for c in ast.iter_child_nodes(n):
+            walk(c, depth + 1 if isinstance(c, (ast.FunctionDef, ast.Lambda)) and not is_thunk(n, c) else depth)
+
+    def is_thunk(parent, child):
+        # the `lambda lscope: body` thunk of with_function_scope is not a user-level nesting
+        return isinstance(parent, ast.Call) and is_ag(parent.func, 'with_function_scope') and parent.args and parent.args[0] is child
+
+    nodes = tree if isinstance(tree, (list, tuple)) else [tree]
+    for t in nodes:
+        walk(t, 0 if isinstance(t, (ast.FunctionDef, ast.Lambda)) else -1)
+    return sorted(out, key=lambda p: p[0])
+
+
 def hashseed_worker():
     """Run in a subprocess with a given PYTHONHASHSEED: round trip + to_ast shapes for all values."""
     sys.path.insert(0, common.REPO)
@@ -270,6 +324,60 @@ def check(run):
                          {'a': canon(objs[a]), 'b': canon(objs[b]), 'key_a': repr(ka)[:80], 'key_b': repr(ckeys[b])[:80]})
     run.evaluations += nk
     run.cov['cache_key_pairs'] = nk
+
+    # ---- embedding oracle: the options expression embedded in GENERATED CODE evaluates back to the options the
+    # conversion ran with (top-level entity) / to their call_options() (every nested def or lambda), whatever else the
+    # entity contains (nested defs, nested lambdas, two levels, a lambda entity)
+    import passes
+    import importlib.util, tempfile
+    shp = os.path.join(tempfile.mkdtemp(prefix='c20embed_'), 'c20_embed_shapes.py')
+    with open(shp, 'w') as f:
+        f.write(EMBED_SHAPES)
+    spec_ = importlib.util.spec_from_file_location('c20_embed_shapes', shp)
+    modsh = importlib.util.module_from_spec(spec_)
+    sys.modules['c20_embed_shapes'] = modsh
+    spec_.loader.exec_module(modsh)
+    ns = vars(modsh)
+    shapes = [ns[k] for k in ('e_plain', 'e_nested_def', 'e_nested_lambda', 'e_two_levels', 'e_def_and_lambda', 'e_lambda')]
+    if run.tier == 'quick':
+        fsets = [fs for k, (r0, u0, i0, fs) in enumerate(values) if (r0, u0, i0) == (False, False, False)]
+        fsets = [fs for k, fs in enumerate(fsets) if len(fs) <= 1 or k % 9 == run.seed % 9]
+    else:
+        fsets = [fs for (r0, u0, i0, fs) in values if (r0, u0, i0) == (False, False, False)]
+    nemb = nexpr = 0
+    for fs in fsets:
+        for r in (False, True):
+            for u in (False, True):
+                for i in (False, True):
+                    o = Opt(r, u, i, fs)
+                    for fn in shapes:
+                        trc = passes.trace_conversion(fn, o)
+                        nemb += 1
+                        if trc.error is not None or trc.final_tree is None:
+                            run.fail('conversion fails in the embedding oracle: %r' % (trc.error,),
+                                     {'value': [r, u, i, [f.name for f in fs]], 'shape': fn.__name__})
+                            continue
+                        found = embedded_options(trc.final_tree)
+                        run.case(('embed', fn.__name__, r, u, i, tuple(f.name for f in fs)), True)
+                        if not found or found[0][0] != 0:
+                            run.fail('no function-scope options expression found at the top level of the generated code',
+                                     {'value': [r, u, i, [f.name for f in fs]], 'shape': fn.__name__})
+                            continue
+                        for depth, expr in found:
+                            nexpr += 1
+                            try:
+                                back = eval(parser.unparse(expr, include_encoding_marker=False), {'ag__': ag})
+                            except Exception as e:      # noqa
+                                back = repr(e)
+                            want = o if depth == 0 else o.call_options()
+                            if not (isinstance(back, Opt) and fields_equal(back, want) and back == want and hash(back) == hash(want)):
+                                run.fail('the options expression embedded in generated code does not evaluate back to the options '
+                                         'the conversion ran with (top-level entity) / their call_options() (nested function)',
+                                         {'value': [r, u, i, [f.name for f in fs]], 'shape': fn.__name__, 'depth': depth,
+                                          'embedded': canon(back) if isinstance(back, Opt) else str(back)[:200], 'expected': canon(want)})
+    run.evaluations += nexpr
+    run.cov['embedding_oracle'] = {'conversions': nemb, 'embedded_expressions': nexpr, 'shapes': [f.__name__ for f in shapes],
+                                   'feature_sets': len(fsets)}
 
     # PYTHONHASHSEED sweep (frozenset iteration order feeds to_ast)
     seeds = [run.seed * 7 + k + 1 for k in range(2 if run.tier == 'quick' else 10)]
